@@ -65,6 +65,10 @@ pub struct DataEvent {
 
 impl ConvertPacket<DataEvent> for DataEvent {
     fn try_from_packet(packet: &Packet) -> Result<Self, ConvertPacketError> {
+        if packet.data.len() < 6 {
+            return Err(ConvertPacketError::WrongSize);
+        }
+
         if packet.is_error {
             return Err(ConvertPacketError::WrongType);
         }
